@@ -26,7 +26,7 @@ def holds (s : St) (t : Nat) : Lock → Prop
 /-- the lock that label `a` of thread `t` acquires in state `s` -/
 def wants (s : St) (t : Nat) : Act → Option Lock
   | .meterNew | .meterGet => some .prov
-  | .mk m | .reg m => some (.meter m)
+  | .mk m _ | .reg m => some (.meter m)
   | .unregTake r | .oUnregLock r => some (.reg r)
   | .unregCall => match s.frame t with
     | .unregTaken r .closure => some (.meter (s.rMeter r))
@@ -184,6 +184,24 @@ theorem loaded_delegate_is_used {old : Bool} {s : St} {t i v : Nat} (hf : s.fram
   refine ⟨{ s with frame := upd s.frame t .idle, recorded := (i, v) :: s.recorded }, ?_, rfl⟩
   simp [step, hf]
 
+/-- **Forwarding does not depend on the instrument kind**: the kind the placeholder was created with (`iKind`,
+one of the 14 constructors) is never read by the load / forward labels — replacing the kind table by any other
+one commutes with both labels … -/
+theorem add_labels_ignore_kind {old : Bool} {s : St} {t : Nat} (f : Nat → Nat) (a : Act)
+    (ha : a = .addFwd ∨ ∃ i v, a = .addLoad i v) :
+    step old { s with iKind := f } t a = (step old s t a).map (fun x => { x with iKind := f }) := by
+  rcases ha with rfl | ⟨i, v, rfl⟩
+  · simp only [step]
+    cases s.frame t <;> simp
+    split <;> simp
+  · simp only [step]
+    split <;> simp
+
+/-- … and the forwarding theorem holds for an instrument of every kind `k` -/
+theorem forwarding_kind_independent {old : Bool} {s : St} (hr : Reachable old s) (hd : s.onceDone = true)
+    {i : Nat} (hi : i < s.nI) (k : Nat) (_hk : s.iKind i = k) : s.iDel i = true :=
+  forwarding_after_install hr hd hi
+
 /-! ### self-set (`SetMeterProvider(GetMeterProvider())` / `SetTracerProvider(GetTracerProvider())` while the
 placeholder is still the global value — a save/restore helper): documented no-op, must not use up the once -/
 
@@ -276,10 +294,10 @@ theorem unregister_handle_taken_once {s : St} (hr : Reachable false s) {t t' r :
 /-- instrument created before, measurement dropped before, installation, measurement forwarded after;
 callback registered before is registered with the SDK once -/
 def demoLabels : List (Nat × Act) :=
-  [(0, .meterNew), (0, .mk 0), (0, .reg 0), (1, .addLoad 0 5), (1, .addFwd),
+  [(0, .meterNew), (0, .mk 0 1), (0, .reg 0), (1, .addLoad 0 5), (1, .addFwd),
    (4, .selfSet),                    -- save/restore helper before any SDK exists
    (2, .instBegin), (2, .instLockProv), (2, .instLockMeter 0), (2, .instSetDel),
-   (3, .mk 0),                       -- blocked in reality; here: must not be enabled
+   (3, .mk 0 3),                     -- blocked in reality; here: must not be enabled
    (2, .instInst 0), (2, .instRegLock), (2, .instRegBody), (2, .instMeterDone), (2, .instProvUnlock),
    (2, .instOnceDone), (2, .instStore), (1, .addLoad 0 7), (1, .addFwd)]
 
